@@ -254,6 +254,8 @@ class QGen:
             opts.append((3, "vecmethod"))
         if self.f.range_ and fuel > 0:
             opts.append((1, "range"))
+        if fuel > 0 and self.f.closures and (vm or objs):
+            opts.append((5, "selfjoin"))
         if fuel > 1:
             if self.noflat:
                 self.excluded["aggregate-over-inner-SelectMany"] = self.excluded.get("aggregate-over-inner-SelectMany", 0) + 1
@@ -291,6 +293,37 @@ class QGen:
                 if os_ is not None:
                     self.labels.add("Range-computed-bound")
                     base = (f"Range({lo}, {os_[0]}.Count())", "int")
+        elif k == "selfjoin":
+            # the same collection expression iterated again inside a loop over it (closure over the outer element)
+            used_names = {n for n, _ in scope}
+            a = "sa"
+            while a in used_names:
+                a += "a"
+            b = "sb"
+            while b in used_names or b == a:
+                b += "b"
+            how = self.pick(["Count", "Sum", "Count"])
+            if vm and self.chance(1, 2):
+                txt, m = self.pick(vm)
+                S = f"{txt}.{m.name}()"
+                cmp_ = self.pick([">", "<", ">=", "!="])
+                inner = f"{S}.Where(lambda {b}: {b} {cmp_} {a})"
+                base = (f"{S}.Select(lambda {a}: {inner}.{how}())", "int" if how == "Count" else m.ctype)
+                self.labels.add("self-join")
+                self.nops += 3
+            else:
+                ov_ = [(t_, c_, m_) for t_, c_ in objs for m_ in self.s.classes[c_].methods if m_.kind == "objvec"]
+                if ov_:
+                    t_, c_, m_ = self.pick(ov_)
+                    S = f"{t_}.{m_.name}()"
+                    nm = [x for x in self.s.classes[m_.cls].methods if x.kind == "num" and x.ctype != "bool" and not x.enum and not x.tree_type]
+                    if nm:
+                        f1 = self.pick(nm)
+                        cmp_ = self.pick([">", "<", ">=", "!="])
+                        inner = f"{S}.Where(lambda {b}: {b}.{f1.name}() {cmp_} {a}.{f1.name}())"
+                        base = (f"{S}.Select(lambda {a}: {inner}.Count())", "int")
+                        self.labels.add("self-join")
+                        self.nops += 3
         elif k == "selectmany":
             os_ = self.objseq(scope, fuel - 1)
             if os_ is not None:
